@@ -142,8 +142,44 @@ Proof.
     destruct (covered _ id); [apply ext_handle_delete | apply ext_refl].
 Qed.
 
+Lemma ext_mutate_gap : forall c st m, ext c st (mutate_gap st m).
+Proof.
+  intros c st m. unfold mutate_gap. destruct m as [id p|id p|id]; simpl.
+  - apply ext_same_events; reflexivity.
+  - apply ext_same_events; reflexivity.
+  - destruct (lookup (r_cluster st) id); [apply ext_same_events; reflexivity | apply ext_refl].
+Qed.
+
+Lemma ext_break : forall c st g, ext c st (do_break st g).
+Proof. intros c st g. unfold do_break. destruct (in_gap st g); [apply ext_refl | apply ext_same_events; reflexivity]. Qed.
+
+Lemma ext_relist_upsert : forall c st e, ext c st (relist_upsert c st e).
+Proof.
+  intros c st e. unfold relist_upsert. destruct (lookup (r_cluster st) (fst e)); [|apply ext_refl].
+  destruct (covered st (fst e)); [apply ext_handle_upsert | apply ext_refl].
+Qed.
+
+Lemma ext_relist_delete : forall c st e, ext c st (relist_delete c st e).
+Proof.
+  intros c st e. unfold relist_delete. destruct (lookup (r_cluster st) (fst e)); [apply ext_refl|].
+  destruct (snd e); [|apply ext_refl].
+  destruct (covered st (fst e)); [apply ext_handle_delete | apply ext_refl].
+Qed.
+
+Lemma ext_relist : forall c st g, ext c st (do_relist c st g).
+Proof.
+  intros c st g. unfold do_relist. destruct (gap_of (r_gaps st) g) as [l|]; [|apply ext_refl].
+  eapply ext_trans; [apply ext_same_events with (st' := set_gaps st (filter (fun e => negb (Nat.eqb (fst e) g)) (r_gaps st))); reflexivity|].
+  eapply ext_trans; [apply ext_fold; apply ext_relist_upsert | apply ext_fold; apply ext_relist_delete].
+Qed.
+
+Lemma ext_step_mut : forall c st m, ext c st (rstep_apply c st (SMut m)).
+Proof.
+  intros c st m. simpl. destruct (in_gap st (o_gk (mut_id_of m))); [apply ext_mutate_gap | apply ext_mutate].
+Qed.
+
 Definition start_state (c : config) (cl : list (oid * payload)) : rstate :=
-  mkR cl (served c cl) [] false false false [].
+  mkR cl (served c cl) [] false false false [] [].
 
 Lemma ext_start : forall c cl, ext c (start_state c cl) (start c cl).
 Proof. intros c cl. unfold start. apply ext_fold. apply ext_start_top. Qed.
@@ -184,8 +220,7 @@ Proof. intros c cl. constructor; simpl; intros; try reflexivity; try discriminat
 
 Lemma RInv_step : forall c st s, RInv c st -> RInv c (rstep_apply c st s).
 Proof.
-  intros c st s I. destruct s; simpl.
-  - eapply RInv_ext; [exact I | apply ext_mutate].
+  intros c st s I. destruct s; try (eapply RInv_ext; [exact I | first [apply ext_step_mut | apply ext_break | apply ext_relist]]); simpl.
   - unfold do_sync. destruct (r_stopped st || r_synced st) eqn:E; [exact I|].
     apply orb_false_iff in E. destruct E as [E1 E2]. destruct I as [I1 I2 I3 I4 I5].
     constructor; simpl; rewrite ?count_errors_app, ?count_syncs_app; simpl; intros; auto.
@@ -228,9 +263,12 @@ Proof. intros c pre steps id s H. apply allowed_In. exact (ri_allowed c _ (RInv_
 
 Lemma errsent_step_nofail : forall c st s, s <> SFail -> r_errsent (rstep_apply c st s) = r_errsent st.
 Proof.
-  intros c st s N. destruct s; simpl; try congruence.
-  - destruct (ext_mutate c st m) as [_ [A _]]. exact A.
-  - unfold do_sync. destruct (r_stopped st || r_synced st); reflexivity.
+  intros c st s N. destruct s; try congruence.
+  - destruct (ext_step_mut c st m) as [_ [A _]]. exact A.
+  - simpl. unfold do_sync. destruct (r_stopped st || r_synced st); reflexivity.
+  - reflexivity.
+  - destruct (ext_break c st g) as [_ [A _]]. exact A.
+  - destruct (ext_relist c st g) as [_ [A _]]. exact A.
 Qed.
 
 Lemma errsent_start : forall c cl, r_errsent (start c cl) = false.
@@ -297,16 +335,48 @@ Proof.
     destruct (covered _ id); [|reflexivity]. unfold handle_delete. simpl. rewrite S. reflexivity.
 Qed.
 
+Lemma fold_fixed : forall A (f : rstate -> A -> rstate) (P : rstate -> Prop) l st,
+  (forall s x, P s -> f s x = s) -> P st -> fold_left f l st = st.
+Proof.
+  intros A f P l st H. induction l as [|x t IH]; intros Hp; simpl; [reflexivity|].
+  rewrite (H st x Hp). apply IH. exact Hp.
+Qed.
+
+Lemma relist_stopped : forall c st g, r_stopped st = true -> r_events (do_relist c st g) = r_events st.
+Proof.
+  intros c st g S. unfold do_relist. destruct (gap_of (r_gaps st) g) as [l|]; [|reflexivity].
+  set (st0 := set_gaps st (filter (fun e => negb (Nat.eqb (fst e) g)) (r_gaps st))).
+  assert (S0 : r_stopped st0 = true) by exact S.
+  set (l' := filter (fun e => Nat.eqb (o_gk (fst e)) g) l).
+  set (listed := map (fun kp : oid * payload => (fst kp, @None payload))
+                     (filter (fun kp => Nat.eqb (o_gk (fst kp)) g) (r_cluster st))).
+  change (r_events (fold_left (relist_delete c) l' (fold_left (relist_upsert c) listed st0)) = r_events st).
+  rewrite (fold_fixed _ (relist_upsert c) (fun s => r_stopped s = true) listed st0); [| |exact S0].
+  - rewrite (fold_fixed _ (relist_delete c) (fun s => r_stopped s = true) l' st0); [reflexivity| |exact S0].
+    intros s x Hs. unfold relist_delete. destruct (lookup (r_cluster s) (fst x)); [reflexivity|].
+    destruct (snd x); [|reflexivity]. destruct (covered s (fst x)); [|reflexivity].
+    unfold handle_delete. rewrite Hs. reflexivity.
+  - intros s x Hs. unfold relist_upsert. destruct (lookup (r_cluster s) (fst x)); [|reflexivity].
+    destruct (covered s (fst x)); [|reflexivity]. unfold handle_upsert. rewrite Hs. reflexivity.
+Qed.
+
 Lemma after_error_frozen_step : forall c st s, r_errsent st = true -> r_stopped st = true ->
   r_events (rstep_apply c st s) = r_events st /\
   r_errsent (rstep_apply c st s) = true /\ r_stopped (rstep_apply c st s) = true.
 Proof.
-  intros c st s E S. destruct s; simpl.
-  - split; [apply mutate_stopped_events; exact S|].
-    destruct (ext_mutate c st m) as [_ [A [B _]]]. rewrite A, B. auto.
-  - unfold do_sync. rewrite S. simpl. auto.
-  - auto.
-  - unfold handle_fatal. rewrite E. auto.
+  intros c st s E S. destruct s.
+  - split.
+    + simpl. destruct (in_gap st (o_gk (mut_id_of m))); [|apply mutate_stopped_events; exact S].
+      unfold mutate_gap. destruct m as [id p|id p|id]; simpl; try reflexivity.
+      destruct (lookup (r_cluster st) id); reflexivity.
+    + destruct (ext_step_mut c st m) as [_ [A [B _]]]. rewrite A, B. auto.
+  - simpl. unfold do_sync. rewrite S. simpl. auto.
+  - simpl. auto.
+  - simpl. unfold handle_fatal. rewrite E. auto.
+  - destruct (ext_break c st g) as [_ [A [B _]]]. simpl rstep_apply. rewrite A, B.
+    split; [|auto]. unfold do_break. destruct (in_gap st g); reflexivity.
+  - destruct (ext_relist c st g) as [_ [A [B _]]]. simpl rstep_apply. rewrite A, B.
+    split; [apply relist_stopped; exact S | auto].
 Qed.
 
 Lemma after_error_frozen : forall c steps st, r_errsent st = true -> r_stopped st = true ->
@@ -651,13 +721,57 @@ Proof.
     destruct (covered _ id); [rewrite cluster_handle_delete|]; reflexivity.
 Qed.
 
+Lemma cluster_mutate_gap : forall st m,
+  r_cluster (mutate_gap st m) =
+  match m with
+  | MAdd id p | MUpdate id p => upsert (r_cluster st) id p
+  | MDelete id => match lookup (r_cluster st) id with
+                  | Some _ => remove_obj (r_cluster st) id
+                  | None => r_cluster st
+                  end
+  end.
+Proof.
+  intros st m. unfold mutate_gap. destruct m as [id p|id p|id]; simpl; try reflexivity.
+  destruct (lookup (r_cluster st) id); reflexivity.
+Qed.
+
+Lemma cluster_step_mut : forall c st m,
+  r_cluster (rstep_apply c st (SMut m)) =
+  match m with
+  | MAdd id p | MUpdate id p => upsert (r_cluster st) id p
+  | MDelete id => match lookup (r_cluster st) id with
+                  | Some _ => remove_obj (r_cluster st) id
+                  | None => r_cluster st
+                  end
+  end.
+Proof.
+  intros c st m. simpl. destruct (in_gap st (o_gk (mut_id_of m))); [apply cluster_mutate_gap | apply cluster_mutate].
+Qed.
+
+Lemma cluster_relist : forall c st g, r_cluster (do_relist c st g) = r_cluster st.
+Proof.
+  intros c st g. unfold do_relist. destruct (gap_of (r_gaps st) g) as [l|]; [|reflexivity].
+  rewrite cluster_fold.
+  - rewrite cluster_fold; [reflexivity|]. intros s x. unfold relist_upsert.
+    destruct (lookup (r_cluster s) (fst x)); [|reflexivity].
+    destruct (covered s (fst x)); [apply cluster_handle_upsert | reflexivity].
+  - intros s x. unfold relist_delete. destruct (lookup (r_cluster s) (fst x)); [reflexivity|].
+    destruct (snd x); [|reflexivity]. destruct (covered s (fst x)); [apply cluster_handle_delete | reflexivity].
+Qed.
+
+Lemma cluster_break : forall st g, r_cluster (do_break st g) = r_cluster st.
+Proof. intros st g. unfold do_break. destruct (in_gap st g); reflexivity. Qed.
+
 Lemma cl_ok_step : forall c st s, cl_ok (r_cluster st) -> cl_ok (r_cluster (rstep_apply c st s)).
 Proof.
-  intros c st s K. destruct s; simpl; try exact K.
-  - rewrite cluster_mutate. destruct m as [id p|id p|id]; try (apply cl_ok_upsert; exact K).
+  intros c st s K. destruct s.
+  - rewrite cluster_step_mut. destruct m as [id p|id p|id]; try (apply cl_ok_upsert; exact K).
     destruct (lookup (r_cluster st) id); [apply cl_ok_remove|]; exact K.
-  - unfold do_sync. destruct (r_stopped st || r_synced st); exact K.
-  - unfold handle_fatal. destruct (r_errsent st); exact K.
+  - simpl. unfold do_sync. destruct (r_stopped st || r_synced st); exact K.
+  - exact K.
+  - simpl. unfold handle_fatal. destruct (r_errsent st); exact K.
+  - simpl. rewrite cluster_break. exact K.
+  - simpl. rewrite cluster_relist. exact K.
 Qed.
 
 Lemma cl_ok_run : forall c pre steps, cl_ok (r_cluster (run c pre steps)).
@@ -714,11 +828,44 @@ Qed.
 Definition not_about (id : oid) (s : rstep) : Prop :=
   match s with SMut m => oid_eqb (mut_id m) id = false | _ => True end.
 
+Lemma keeps_relist : forall c id st g, keeps id st (do_relist c st g).
+Proof.
+  intros c id st g. unfold do_relist. destruct (gap_of (r_gaps st) g) as [l|]; [|apply keeps_refl].
+  eapply keeps_trans; [apply keeps_silent with (st' := set_gaps st (filter (fun e => negb (Nat.eqb (fst e) g)) (r_gaps st))); reflexivity|].
+  eapply keeps_trans.
+  - apply (keeps_fold id _ (relist_upsert c)). intros s x. unfold relist_upsert.
+    destruct (lookup (r_cluster s) (fst x)) as [p|] eqn:L; [|apply keeps_refl].
+    destruct (covered s (fst x)); [|apply keeps_refl].
+    apply keeps_handle_upsert. intros E. apply oid_eqb_eq in E. subst id.
+    unfold final_status. rewrite L. reflexivity.
+  - apply (keeps_fold id _ (relist_delete c)). intros s x. unfold relist_delete.
+    destruct (lookup (r_cluster s) (fst x)) as [p|] eqn:L; [apply keeps_refl|].
+    destruct (snd x); [|apply keeps_refl]. destruct (covered s (fst x)); [|apply keeps_refl].
+    apply keeps_handle_delete. intros E. apply oid_eqb_eq in E. subst id.
+    unfold final_status. rewrite L. reflexivity.
+Qed.
+
+Lemma settled_gap_mutation : forall id st m, oid_eqb (mut_id m) id = false ->
+  settled id st -> settled id (mutate_gap st m).
+Proof.
+  intros id st m N J. unfold settled, final_status in *. rewrite cluster_mutate_gap.
+  assert (E : r_events (mutate_gap st m) = r_events st).
+  { unfold mutate_gap. destruct m as [k p|k p|k]; simpl; try reflexivity.
+    destruct (lookup (r_cluster st) k); reflexivity. }
+  rewrite E. destruct m as [k p|k p|k]; simpl in N.
+  - rewrite lookup_upsert_other by exact N. exact J.
+  - rewrite lookup_upsert_other by exact N. exact J.
+  - destruct (lookup (r_cluster st) k); [rewrite lookup_remove_other by exact N|]; exact J.
+Qed.
+
 Lemma settled_step : forall c id st s, cl_ok (r_cluster st) -> not_about id s ->
   settled id st -> settled id (rstep_apply c st s).
 Proof.
-  intros c id st s K N J. destruct s; simpl in *.
-  - apply settled_other_mutation; assumption.
+  intros c id st s K N J. destruct s; try (simpl in *; fail).
+  6:{ simpl. apply (settled_keeps id st _ K J). apply keeps_relist. }
+  5:{ simpl. unfold do_break. destruct (in_gap st g); exact J. }
+  all: simpl in *.
+  - destruct (in_gap st (o_gk (mut_id_of m))); [apply settled_gap_mutation | apply settled_other_mutation]; assumption.
   - unfold do_sync. destruct (r_stopped st || r_synced st); [exact J|].
     unfold settled, final_status in *. simpl. rewrite last_for_app. simpl. exact J.
   - exact J.
@@ -772,13 +919,286 @@ Lemma last_event_final : forall c pre steps1 m steps2,
   r_stopped st1 = false -> allowed c (mut_id m) = true -> covered st1 (mut_id m) = true ->
   (forall id, m = MDelete id -> lookup (r_cluster st1) id <> None) ->
   (forall id p, m = MAdd id p \/ m = MUpdate id p -> p_slow p = false) ->
+  in_gap st1 (o_gk (mut_id m)) = false ->
   Forall (not_about (mut_id m)) steps2 ->
   let st := run c pre (steps1 ++ SMut m :: steps2) in
   last_for (mut_id m) (r_events st) = Some (final_status st (mut_id m)).
 Proof.
-  intros c pre steps1 m steps2 st1 S A C D W F st. subst st st1. unfold run in *.
-  rewrite fold_left_app. simpl.
-  apply settled_steps; [|exact F|].
-  - apply (cl_ok_step c _ (SMut m)). apply (cl_ok_run c pre steps1).
-  - apply settled_observed; try assumption. apply (cl_ok_run c pre steps1).
+  intros c pre steps1 m steps2 st1 S A C D W G F st. subst st. unfold run.
+  rewrite fold_left_app.
+  change (settled (mut_id m) (fold_left (rstep_apply c) steps2 (rstep_apply c st1 (SMut m)))).
+  assert (K1 : cl_ok (r_cluster st1)) by apply (cl_ok_run c pre steps1).
+  apply settled_steps; [apply cl_ok_step; exact K1 | exact F |].
+  assert (E : rstep_apply c st1 (SMut m) = mutate c st1 m)
+    by (simpl; unfold mut_id in G; rewrite G; reflexivity).
+  rewrite E. apply settled_observed; assumption.
+Qed.
+
+(* ---- watch gaps: the re-list reports the final state --------------------------- *)
+Lemma gap_mutation_deferred : forall c st m, in_gap st (o_gk (mut_id m)) = true ->
+  r_events (rstep_apply c st (SMut m)) = r_events st.
+Proof.
+  intros c st m G. simpl. unfold mut_id in G. rewrite G. unfold mutate_gap.
+  destruct m as [id p|id p|id]; simpl; try reflexivity. destruct (lookup (r_cluster st) id); reflexivity.
+Qed.
+
+(* frame of a re-list over objects of a plain kind: nothing but events changes *)
+Definition same_frame (st s : rstate) : Prop :=
+  r_cluster s = r_cluster st /\ r_started s = r_started st /\ r_stopped s = r_stopped st.
+
+Lemma started_plain_upsert : forall c s k p, is_ns k = false -> is_crd k = false ->
+  r_started (handle_upsert c s k p) = r_started s.
+Proof.
+  intros c s k p N K. unfold handle_upsert. rewrite N, K.
+  destruct (r_stopped s); [reflexivity|]. destruct (allowed c k); simpl; [|reflexivity].
+  destruct (p_slow p); reflexivity.
+Qed.
+
+Lemma started_plain_delete : forall c s k p, is_ns k = false -> is_crd k = false ->
+  r_started (handle_delete c s k p) = r_started s.
+Proof.
+  intros c s k p N K. unfold handle_delete. rewrite N, K.
+  destruct (r_stopped s); [reflexivity|]. destruct (allowed c k); reflexivity.
+Qed.
+
+Lemma frame_relist_upsert : forall c st s e, is_ns (fst e) = false -> is_crd (fst e) = false ->
+  same_frame st s -> same_frame st (relist_upsert c s e).
+Proof.
+  intros c st s e N K [A [B C]]. unfold relist_upsert.
+  destruct (lookup (r_cluster s) (fst e)); [|repeat split; assumption].
+  destruct (covered s (fst e)); [|repeat split; assumption].
+  split; [rewrite cluster_handle_upsert; exact A|].
+  split; [rewrite started_plain_upsert by assumption; exact B|].
+  destruct (ext_handle_upsert c s (fst e) p) as [_ [_ [X _]]]. rewrite X. exact C.
+Qed.
+
+Lemma frame_relist_delete : forall c st s e, is_ns (fst e) = false -> is_crd (fst e) = false ->
+  same_frame st s -> same_frame st (relist_delete c s e).
+Proof.
+  intros c st s e N K [A [B C]]. unfold relist_delete.
+  destruct (lookup (r_cluster s) (fst e)); [repeat split; assumption|].
+  destruct (snd e) as [o|]; [|repeat split; assumption].
+  destruct (covered s (fst e)); [|repeat split; assumption].
+  split; [rewrite cluster_handle_delete; exact A|].
+  split; [rewrite started_plain_delete by assumption; exact B|].
+  destruct (ext_handle_delete c s (fst e) o) as [_ [_ [X _]]]. rewrite X. exact C.
+Qed.
+
+Lemma covered_frame : forall st s id, same_frame st s -> covered s id = covered st id.
+Proof. intros st s id [_ [B _]]. unfold covered. rewrite B. reflexivity. Qed.
+
+Lemma keeps_relist_upsert : forall c id s e, keeps id s (relist_upsert c s e).
+Proof.
+  intros c id s x. unfold relist_upsert.
+  destruct (lookup (r_cluster s) (fst x)) as [p|] eqn:L; [|apply keeps_refl].
+  destruct (covered s (fst x)); [|apply keeps_refl].
+  apply keeps_handle_upsert. intros E. apply oid_eqb_eq in E. subst id.
+  unfold final_status. rewrite L. reflexivity.
+Qed.
+
+Lemma keeps_relist_delete : forall c id s e, keeps id s (relist_delete c s e).
+Proof.
+  intros c id s x. unfold relist_delete.
+  destruct (lookup (r_cluster s) (fst x)) as [p|] eqn:L; [apply keeps_refl|].
+  destruct (snd x); [|apply keeps_refl]. destruct (covered s (fst x)); [|apply keeps_refl].
+  apply keeps_handle_delete. intros E. apply oid_eqb_eq in E. subst id.
+  unfold final_status. rewrite L. reflexivity.
+Qed.
+
+Lemma fold_keeps_settled : forall (f : rstate -> oid * option payload -> rstate) id st l,
+  (forall s e, keeps id s (f s e)) ->
+  (forall s e, In e l -> same_frame st s -> same_frame st (f s e)) ->
+  cl_ok (r_cluster st) ->
+  forall s, same_frame st s -> settled id s -> settled id (fold_left f l s) /\ same_frame st (fold_left f l s).
+Proof.
+  intros f id st l Hk Hf K. induction l as [|x t IH]; intros s Fs J; simpl; [split; assumption|].
+  apply IH.
+  - intros s0 e0 H0. apply Hf. right. exact H0.
+  - apply Hf; [left; reflexivity | exact Fs].
+  - apply (settled_keeps id s); [destruct Fs as [A _]; rewrite A; exact K | exact J | apply Hk].
+Qed.
+
+(* a fold whose steps keep [id] consistent and the frame fixed: once some entry
+   settles [id], it stays settled *)
+Lemma fold_settles : forall (f : rstate -> oid * option payload -> rstate) id st l,
+  (forall s e, keeps id s (f s e)) ->
+  (forall s e, In e l -> same_frame st s -> same_frame st (f s e)) ->
+  (exists e, In e l /\ forall s, same_frame st s -> settled id (f s e)) ->
+  cl_ok (r_cluster st) ->
+  forall s, same_frame st s -> settled id (fold_left f l s).
+Proof.
+  intros f id st l Hk. induction l as [|x t IH]; intros Hf [e [Hin He]] K s Fs; [destruct Hin|].
+  simpl.
+  assert (Fx : same_frame st (f s x)) by (apply Hf; [left; reflexivity | exact Fs]).
+  assert (Hft : forall s0 e0, In e0 t -> same_frame st s0 -> same_frame st (f s0 e0))
+    by (intros s0 e0 H0; apply Hf; right; exact H0).
+  destruct Hin as [<-|Hin].
+  - apply (fold_keeps_settled f id st t Hk Hft K); [exact Fx | apply He; exact Fs].
+  - apply IH; [exact Hft | exists e; split; [exact Hin | exact He] | exact K | exact Fx].
+Qed.
+
+Lemma fold_frame : forall (f : rstate -> oid * option payload -> rstate) st l,
+  (forall s e, In e l -> same_frame st s -> same_frame st (f s e)) ->
+  forall s, same_frame st s -> same_frame st (fold_left f l s).
+Proof.
+  intros f st l Hf. induction l as [|x t IH]; intros s Fs; simpl; [exact Fs|].
+  apply IH; [intros s0 e0 H0; apply Hf; right; exact H0 | apply Hf; [left; reflexivity | exact Fs]].
+Qed.
+
+Lemma lookup_In : forall cl id p, lookup cl id = Some p -> In (id, p) cl.
+Proof.
+  induction cl as [|[k q] t IH]; intros id p H; simpl in *; [discriminate|].
+  destruct (oid_eqb k id) eqn:E.
+  - apply oid_eqb_eq in E. inversion H; subst. left. reflexivity.
+  - right. apply IH. exact H.
+Qed.
+
+(* The re-list after a gap on a plain kind [g] reports the FINAL state of every
+   watched object of that kind that exists, and NotFound for every object that
+   was known at the break and is gone. *)
+Lemma relist_final_state : forall c st g l id,
+  cl_ok (r_cluster st) -> g <> GK_NS -> g <> GK_CRD ->
+  gap_of (r_gaps st) g = Some l -> o_gk id = g ->
+  r_stopped st = false -> allowed c id = true -> covered st id = true ->
+  match lookup (r_cluster st) id with
+  | Some p => p_slow p = false                 (* the final version's status read returns *)
+  | None => exists o, In (id, Some o) l        (* it changed in the gap and was in the store *)
+  end ->
+  settled id (do_relist c st g).
+Proof.
+  intros c st g l id K Gn Gc Hg Hk S A C Hfin.
+  unfold do_relist. rewrite Hg.
+  set (st0 := set_gaps st (filter (fun e => negb (Nat.eqb (fst e) g)) (r_gaps st))).
+  set (l' := filter (fun e => Nat.eqb (o_gk (fst e)) g) l).
+  set (listed := map (fun kp : oid * payload => (fst kp, @None payload))
+                     (filter (fun kp => Nat.eqb (o_gk (fst kp)) g) (r_cluster st))).
+  assert (F0 : same_frame st st0) by (repeat split).
+  assert (PlainK : forall k : oid, o_gk k = g -> is_ns k = false /\ is_crd k = false).
+  { intros k Hg'. unfold is_ns, is_crd. rewrite Hg'. split; apply Nat.eqb_neq; assumption. }
+  assert (Plain1 : forall e, In e listed -> is_ns (fst e) = false /\ is_crd (fst e) = false).
+  { intros e He. unfold listed in He. apply in_map_iff in He. destruct He as [kp [<- He]].
+    apply filter_In in He. destruct He as [_ He]. apply Nat.eqb_eq in He. simpl. apply PlainK. exact He. }
+  assert (Plain2 : forall e, In e l' -> is_ns (fst e) = false /\ is_crd (fst e) = false).
+  { intros e He. unfold l' in He. apply filter_In in He. destruct He as [_ He]. apply Nat.eqb_eq in He.
+    apply PlainK. exact He. }
+  assert (Fu : forall s e, In e listed -> same_frame st s -> same_frame st (relist_upsert c s e)).
+  { intros s e He Fs. destruct (Plain1 e He). apply frame_relist_upsert; assumption. }
+  assert (Fd : forall s e, In e l' -> same_frame st s -> same_frame st (relist_delete c s e)).
+  { intros s e He Fs. destruct (Plain2 e He). apply frame_relist_delete; assumption. }
+  destruct (PlainK id Hk) as [Nid Cid].
+  destruct (lookup (r_cluster st) id) as [p|] eqn:L.
+  - (* exists at the re-list: settled in the first pass, kept by the second *)
+    assert (Hin1 : In (id, @None payload) listed).
+    { unfold listed. apply in_map_iff. exists (id, p). split; [reflexivity|].
+      apply filter_In. split; [apply lookup_In; exact L|]. simpl. rewrite Hk. apply Nat.eqb_refl. }
+    assert (J1 : settled id (fold_left (relist_upsert c) listed st0)).
+    { apply (fold_settles (relist_upsert c) id st listed); try assumption.
+      - intros; apply keeps_relist_upsert.
+      - exists (id, None). split; [exact Hin1|]. intros s Fs.
+        unfold relist_upsert. simpl. destruct Fs as [Fa [Fb Fc]].
+        rewrite Fa, L. unfold covered. rewrite Fb. fold (covered st id). rewrite C.
+        unfold handle_upsert. rewrite Fc, S, A, Hfin, Nid, Cid. simpl.
+        unfold settled, final_status. simpl. rewrite last_for_app. simpl.
+        rewrite oid_eqb_refl, Fa, L. reflexivity. }
+    apply (fold_keeps_settled (relist_delete c) id st l'); try assumption.
+    + intros; apply keeps_relist_delete.
+    + apply fold_frame; assumption.
+  - (* gone: the tombstone of the second pass reports NotFound *)
+    destruct Hfin as [o Hin].
+    assert (Hin' : In (id, Some o) l').
+    { unfold l'. apply filter_In. split; [exact Hin|]. simpl. rewrite Hk. apply Nat.eqb_refl. }
+    apply (fold_settles (relist_delete c) id st l'); try assumption.
+    + intros; apply keeps_relist_delete.
+    + exists (id, Some o). split; [exact Hin'|]. intros s Fs.
+      unfold relist_delete. simpl. destruct Fs as [Fa [Fb Fc]].
+      rewrite Fa, L. unfold covered. rewrite Fb. fold (covered st id). rewrite C.
+      unfold handle_delete. rewrite Fc, S, A, Nid, Cid. simpl.
+      unfold settled, final_status. simpl. rewrite last_for_app. simpl.
+      rewrite oid_eqb_refl, Fa, L. reflexivity.
+    + apply fold_frame; assumption.
+Qed.
+
+(* a mutation inside a gap is recorded for the re-list *)
+Lemma gap_of_touch : forall gaps g id old,
+  (exists l, gap_of gaps g = Some l) ->
+  exists l o, gap_of (touch gaps g id old) g = Some l /\ In (id, o) l.
+Proof.
+  induction gaps as [|[k l0] t IH]; intros g id old [l H]; simpl in *; [discriminate|].
+  destruct (Nat.eqb k g) eqn:E; simpl; rewrite E.
+  - destruct (existsb (fun x => oid_eqb (fst x) id) l0) eqn:X.
+    + apply existsb_exists in X. destruct X as [[k1 o1] [Hin Hk]]. simpl in Hk. apply oid_eqb_eq in Hk. subst k1.
+      exists l0, o1. split; [reflexivity | exact Hin].
+    + exists (l0 ++ [(id, old)]), old. split; [reflexivity | apply in_or_app; right; left; reflexivity].
+  - apply IH. exists l. exact H.
+Qed.
+
+Lemma in_gap_gap_of : forall gaps g, existsb (fun e => Nat.eqb (fst e) g) gaps = true ->
+  exists l : list (oid * option payload), gap_of gaps g = Some l.
+Proof.
+  induction gaps as [|[k l0] t IH]; intros g H; simpl in *; [discriminate|].
+  destruct (Nat.eqb k g); [exists l0; reflexivity | apply IH; exact H].
+Qed.
+
+Lemma gap_mutation_recorded : forall c st m, in_gap st (o_gk (mut_id m)) = true ->
+  (forall id, m = MDelete id -> lookup (r_cluster st) id <> None) ->
+  exists l o, gap_of (r_gaps (rstep_apply c st (SMut m))) (o_gk (mut_id m)) = Some l /\ In (mut_id m, o) l.
+Proof.
+  intros c st m G D. simpl. unfold mut_id in *. rewrite G. unfold mutate_gap.
+  pose proof (in_gap_gap_of _ _ G) as Hl.
+  destruct m as [id p|id p|id]; simpl in *.
+  - apply gap_of_touch. exact Hl.
+  - apply gap_of_touch. exact Hl.
+  - destruct (lookup (r_cluster st) id) eqn:L; [|exfalso; exact (D id eq_refl L)].
+    simpl. apply gap_of_touch. exact Hl.
+Qed.
+
+(* the first change of an object inside a gap records its state at the break *)
+Lemma gap_of_touch_fresh : forall gaps g id old l0,
+  gap_of gaps g = Some l0 -> existsb (fun x => oid_eqb (fst x) id) l0 = false ->
+  gap_of (touch gaps g id old) g = Some (l0 ++ [(id, old)]).
+Proof.
+  induction gaps as [|[k l1] t IH]; intros g id old l0 H X; simpl in *; [discriminate|].
+  destruct (Nat.eqb k g) eqn:E; simpl; rewrite E.
+  - inversion H; subst. rewrite X. reflexivity.
+  - apply IH; assumption.
+Qed.
+
+Lemma gap_first_mutation_recorded : forall c st m l0,
+  gap_of (r_gaps st) (o_gk (mut_id m)) = Some l0 ->
+  existsb (fun x => oid_eqb (fst x) (mut_id m)) l0 = false ->
+  (forall id, m = MDelete id -> lookup (r_cluster st) id <> None) ->
+  gap_of (r_gaps (rstep_apply c st (SMut m))) (o_gk (mut_id m)) =
+    Some (l0 ++ [(mut_id m, lookup (r_cluster st) (mut_id m))]).
+Proof.
+  intros c st m l0 H X D.
+  assert (G : in_gap st (o_gk (mut_id m)) = true).
+  { unfold in_gap. clear X D. revert H. generalize (o_gk (mut_id m)). induction (r_gaps st) as [|[k l1] t IH]; intros g H; simpl in *; [discriminate|].
+    destruct (Nat.eqb k g); [reflexivity | apply IH; exact H]. }
+  simpl. unfold mut_id in *. rewrite G. unfold mutate_gap.
+  destruct m as [id p|id p|id]; simpl in *.
+  - apply gap_of_touch_fresh; assumption.
+  - apply gap_of_touch_fresh; assumption.
+  - destruct (lookup (r_cluster st) id) eqn:L; [|exfalso; exact (D id eq_refl L)].
+    simpl. apply gap_of_touch_fresh; assumption.
+Qed.
+
+Lemma last_event_final_gap : forall c pre steps1 g l id steps2,
+  let st1 := run c pre steps1 in
+  g <> GK_NS -> g <> GK_CRD ->
+  gap_of (r_gaps st1) g = Some l -> o_gk id = g ->
+  r_stopped st1 = false -> allowed c id = true -> covered st1 id = true ->
+  match lookup (r_cluster st1) id with
+  | Some p => p_slow p = false
+  | None => exists o, In (id, Some o) l
+  end ->
+  Forall (not_about id) steps2 ->
+  let st := run c pre (steps1 ++ SRelist g :: steps2) in
+  last_for id (r_events st) = Some (final_status st id).
+Proof.
+  intros c pre steps1 g l id steps2 st1 Gn Gc Hg Hk S A C Hfin F st. subst st. unfold run.
+  rewrite fold_left_app.
+  change (settled id (fold_left (rstep_apply c) steps2 (rstep_apply c st1 (SRelist g)))).
+  assert (K1 : cl_ok (r_cluster st1)) by apply (cl_ok_run c pre steps1).
+  apply settled_steps; [apply cl_ok_step; exact K1 | exact F |].
+  simpl. eapply relist_final_state; eassumption.
 Qed.
